@@ -483,6 +483,9 @@ def np_call(ev, name, args, kwargs, node):
         a, idx, b = as_v(ev, A[0]), as_v(ev, A[1]), as_v(ev, A[2])
         if isinstance(idx, App) and idx.fn in ("count_lt", "count_le") and len(idx.args) == 2 and idx.args[0] == a and idx.args[1] == b:
             return mk_app("sort", [App("concat", (a, App("fresh", (b,), [("dtype", Const("other"))])))])
+    if name == "divmod" and len(A) == 2 and not kwargs:
+        x0, x1 = as_v(ev, A[0]), as_v(ev, A[1])
+        return Tup([ev.binop("FloorDiv", x0, x1, node), ev.binop("Mod", x0, x1, node)])     # (x // y, x % y)
     if name == "dtype" and len(A) == 1:
         from .evalr import ExtV
         return A[0] if isinstance(A[0], ExtV) else App("dtype", (as_v(ev, A[0]),))   # np.dtype(float) is float wherever a dtype is expected
@@ -519,7 +522,7 @@ def np_call(ev, name, args, kwargs, node):
             last = dt.dotted.split(".")[-1] if isinstance(dt, ExtV) else (dt.value if isinstance(dt, Const) and isinstance(dt.value, str) else None)
             if last not in ("float", "float64", "double", "longdouble", "f8", "d"):
                 # a cast to an integer / unknown dtype may change values (truncation): not the same value any more
-                kind = "int" if last in ("int", "int64", "intp", "int32", "i8") else "other"
+                kind = "int" if last in ("int", "int64", "intp", "int32", "i8", "int_", "longlong") else "other"
                 return App("fresh", (v,), [("dtype", Const(kind))])
         if isinstance(v, Tup) and not isinstance(v, Vec) and v.items and all(to_poly(i) is not None and not isinstance(i, Star) for i in v.items) \
                 and isinstance(x, (Lst, Tup)):
@@ -610,6 +613,11 @@ def np_call(ev, name, args, kwargs, node):
         if isinstance(x0, Vec) and x0.items:
             return Vec([mk_app(name, [i]) for i in x0.items])
         return mk_app(name, [x0])
+    if name == "any" and len(A) == 1 and not kwargs and isinstance(as_v(ev, A[0]), App) and as_v(ev, A[0]).fn == "or":
+        # some element satisfies a or b  iff  some element satisfies a or some element satisfies b
+        return disj([np_call(ev, "any", [d_], {}, node) for d_ in as_v(ev, A[0]).args])
+    if name == "all" and len(A) == 1 and not kwargs and isinstance(as_v(ev, A[0]), App) and as_v(ev, A[0]).fn == "and":
+        return conj([np_call(ev, "all", [d_], {}, node) for d_ in as_v(ev, A[0]).args])
     if name in ("any", "all") and len(A) == 1 and not kwargs:
         x0 = as_v(ev, A[0])
         if isinstance(x0, Vec) and x0.items and all(is_boolish(i) for i in x0.items):
@@ -1116,6 +1124,10 @@ def call_method(ev, recv, name, args, kwargs, node):
                     raise AnalysisError("_replace: unknown field %s" % k)
                 new[k] = v_
             return ev.construct(recv.cls, [], new, node) if hasattr(ev, "construct") else ev.instantiate(recv.cls, [], new, node)
+    if name in ("union", "intersection", "difference", "symmetric_difference") and isinstance(recv, App) and recv.fn in ("set", "setof") and len(args) == 1 and not kwargs:
+        # the method forms of the set operators: s.union(x) is s | set(x)
+        other = call_builtin(ev, "set", [args[0]], {}, node)
+        return ev.binop({"union": "BitOr", "intersection": "BitAnd", "difference": "Sub", "symmetric_difference": "BitXor"}[name], recv, other, node)
     if isinstance(recv, ListElem):
         if name == "append":
             loops = list(getattr(ev, "loop_stack", []))
@@ -1232,7 +1244,7 @@ def call_method(ev, recv, name, args, kwargs, node):
         t = args[0] if args else kwargs.get("dtype")
         if isinstance(t, ExtV) and t.dotted.split(".")[-1] in ("float", "float64", "double", "longdouble"):
             kind = "float"
-        elif isinstance(t, ExtV) and t.dotted.split(".")[-1] in ("int", "int64", "intp", "bool", "int32"):
+        elif isinstance(t, ExtV) and t.dotted.split(".")[-1] in ("int", "int64", "intp", "bool", "int32", "int_", "longlong", "bool_"):
             kind = "int"
         else:
             kind = "other"
